@@ -241,6 +241,8 @@ class AsyncIOClient(ABC):
         try:
             while self._state != State.CLOSED:
                 await self._receive_impl()
+                # frames that are already buffered are read without suspending: give other tasks a turn
+                await asyncio.sleep(0)
         except Exception as ex:
             if self._state != State.CLOSED:
                 self.logger.error(f"Connection lost while reading. Error: {ex}. Reconnecting...", exc_info=True)
